@@ -1,5 +1,5 @@
 CONSTANTS Fields = {"A","B"}  MaxRules = 2  Depths = {0,2}  Strategies = {"dfs","bfs","ids"}  MaxSols = {1,3}  BodyKinds = {"one"}  MaxOps = 3
-CONSTANT Bads = {FALSE, TRUE}
+CONSTANT Bads = {FALSE}
 CONSTANT InitProg <- P1
 INIT Init
 NEXT Next
